@@ -21,6 +21,10 @@ class PathAbort(Exception):
     """The current path is infeasible (or was cut on purpose)."""
 
 
+class PathSplit(PathAbort):
+    """Pre-pass of a sharded exploration reached the split depth."""
+
+
 class EngineError(Exception):
     """The executor met something it does not model: the unit is unverified,
     never 'proved' and never a violation."""
@@ -31,6 +35,7 @@ class Config(object):
         self.tier = tier
         self.seed = seed
         self.branch_timeout_ms = 2000
+        self.quant_branch_timeout_ms = 400
         self.prove_timeout_ms = 10000 if tier == 'quick' else 60000
         self.max_paths = 4000 if tier == 'quick' else 20000
         self.refute_bound = 6
@@ -104,6 +109,25 @@ class Collector(object):
         self.covers[label] = self.covers.get(label, False) or reached
 
 
+_QCACHE = {}
+
+
+def _has_quantifier(e):
+    k = e.get_id()
+    r = _QCACHE.get(k)
+    if r is None:
+        if z3.is_quantifier(e):
+            r = True
+        elif z3.is_app(e):
+            r = any(_has_quantifier(c) for c in e.children())
+        else:
+            r = False
+        if len(_QCACHE) > 200000:
+            _QCACHE.clear()
+        _QCACHE[k] = r
+    return r
+
+
 def _is_true(e):
     return z3.is_true(e)
 
@@ -127,39 +151,47 @@ def forall_range(ctx, lo, hi, fn, hint='k'):
         body = z3.BoolVal(False)
     lo_t = z3.IntVal(lo) if isinstance(lo, int) else lo
     hi_t = z3.IntVal(hi) if isinstance(hi, int) else hi
+    ctx.qranges[str(k)] = (lo_t, hi_t)
     return z3.ForAll([k], z3.Implies(z3.And(lo_t <= k, k < hi_t), body))
 
 
-def expand_bounded(e, N, side, cache=None):
-    """Replace every forall_range quantifier by its N instances lo+0..lo+N-1 and
-    add 'hi-lo <= N' to `side`.  Exact for models satisfying `side`."""
+def expand_bounded(e, N, side, cache=None, qranges=None, env=()):
+    """Replace every forall_range quantifier (identified by the name of its bound
+    variable, so that simplification of the body does not matter) by its N
+    instances k = lo+0..lo+N-1 and add 'hi-lo <= N' to `side`.  The range guard
+    is part of the instantiated body, so the expansion is exact for models that
+    satisfy `side`.  `env` carries the values chosen for enclosing bound
+    variables, because the registered range of an inner quantifier may mention
+    them (as the constants they were built from)."""
     if cache is None:
         cache = {}
-    key = e.get_id()
+    key = (e.get_id(), tuple(v.get_id() for _c, v in env))
     if key in cache:
         return cache[key]
     if z3.is_quantifier(e):
-        body = e.body()
-        ok = False
-        if e.is_forall() and e.num_vars() == 1 and z3.is_implies(body):
-            ante = body.arg(0)
-            if z3.is_and(ante) and ante.num_args() == 2:
-                c0, c1 = ante.arg(0), ante.arg(1)
-                # lo <= Var(0)  and  Var(0) < hi   (z3 may print them as >= / >)
-                lo = _bound_of(c0, lower=True)
-                hi = _bound_of(c1, lower=False)
-                if lo is not None and hi is not None:
-                    ok = True
-        if not ok:
+        rng = None
+        if e.is_forall() and e.num_vars() == 1 and qranges is not None:
+            rng = qranges.get(e.var_name(0))
+        if rng is None:
             raise EngineError('quantifier not built by forall_range: %s' % e.sexpr()[:200])
-        side.append(hi - lo <= N)
-        inner = body.arg(1)
+        lo, hi = rng
+        if env:
+            lo = z3.substitute(lo, *env)
+            hi = z3.substitute(hi, *env)
+        lo = expand_bounded(lo, N, side, cache, qranges, env)
+        hi = expand_bounded(hi, N, side, cache, qranges, env)
+        if env:
+            # the range depends on outer instances: bound it per instance
+            side.append(z3.Or(hi - lo <= N, hi <= lo))
+        else:
+            side.append(hi - lo <= N)
+        body = e.body()
+        const = z3.Int(e.var_name(0))
         insts = []
         for j in range(N):
             v = z3.simplify(lo + j)
-            bi = z3.substitute_vars(inner, v)
-            bi = expand_bounded(bi, N, side, cache)
-            insts.append(z3.Implies(v < hi, bi))
+            bi = z3.substitute_vars(body, v)
+            insts.append(expand_bounded(bi, N, side, cache, qranges, env + ((const, v),)))
         r = z3.And(*insts)
         cache[key] = r
         return r
@@ -167,7 +199,7 @@ def expand_bounded(e, N, side, cache=None):
         if e.num_args() == 0:
             cache[key] = e
             return e
-        args = [expand_bounded(a, N, side, cache) for a in e.children()]
+        args = [expand_bounded(a, N, side, cache, qranges, env) for a in e.children()]
         changed = any(a.get_id() != b.get_id() for a, b in zip(args, e.children()))
         r = e.decl()(*args) if changed else e
         cache[key] = r
@@ -216,6 +248,8 @@ class Ctx(object):
         self.cfg = cfg
         self.solver = z3.Solver()
         self.solver.set('timeout', cfg.branch_timeout_ms)
+        self.qf_solver = z3.Solver()       # quantifier-free facts only: fast path-feasibility pruning
+        self.qf_solver.set('timeout', cfg.branch_timeout_ms)
         self._id = 0
         self.inputs = []         # (name, kind, payload) for model extraction
         self.spec = 0            # >0: specification mode (no forking)
@@ -223,6 +257,10 @@ class Ctx(object):
         self.ghost = {}          # ghost state of the unit (e.g. visitor trace)
         self.unit_state = {}     # scratch for the verification unit
         self.opaque_hits = []    # things evaluated to Opaque on this path
+        self.qranges = {}        # bound-variable name -> (lo, hi) of forall_range quantifiers
+        self.split_depth = None  # pre-pass: stop (PathSplit) when a NEW decision is needed at this depth
+        self.loc = ''            # source location hint of the statement being executed
+        self.path_log = []       # (location, decision) of this path, for counterexample reports
         self.pc_unknown = False
 
     # -- ids / fresh symbols ------------------------------------------------
@@ -246,15 +284,31 @@ class Ctx(object):
             return
         self.solver.add(cond)
         self.facts.append(cond)
+        if not _has_quantifier(cond):
+            self.qf_solver.add(cond)
 
     def replaying(self):
         return len(self.trace) < len(self.prefix)
 
     def _check(self, *extra):
+        """Feasibility of the path condition (plus extra).  'unsat' is only ever
+        answered when it is certain; the quantifier-free subset is tried first
+        (fewer hypotheses unsat => all unsat), then the full set briefly."""
         t0 = time.time()
-        r = self.solver.check(*extra)
-        self.collector.solver_seconds += time.time() - t0
-        return r
+        try:
+            r = self.qf_solver.check(*extra)
+            if r == z3.unsat:
+                return r
+            if len(self.facts) == len(self.qf_solver.assertions()):
+                return r
+            self.solver.set('timeout', self.cfg.quant_branch_timeout_ms)
+            r2 = self.solver.check(*extra)
+            self.solver.set('timeout', self.cfg.branch_timeout_ms)
+            if r2 == z3.unsat:
+                return r2
+            return r2 if r2 == z3.sat else z3.unknown
+        finally:
+            self.collector.solver_seconds += time.time() - t0
 
     def _decide(self, n_alternatives_fn):
         raise NotImplementedError
@@ -274,12 +328,19 @@ class Ctx(object):
             return False
         if self.spec:
             raise EngineError('fork requested in specification mode: %s' % cond.sexpr()[:200])
+        r = self._branch(cond, wd_name)
+        self.path_log.append('%s=%s' % (wd_name.rsplit(':wd:', 1)[-1][:40] if wd_name else self.loc, 'T' if r else 'F'))
+        return r
+
+    def _branch(self, cond, wd_name=None):
         i = len(self.trace)
         if i < len(self.prefix):
             d = self.prefix[i]
             self.trace.append(d)
             self.assume(cond if d else z3.Not(cond))
             return bool(d)
+        if self.split_depth is not None and i >= self.split_depth:
+            raise PathSplit()
         rt = self._check(cond)
         if rt == z3.unsat:
             # pc & cond infeasible; pc itself is feasible by construction
@@ -310,10 +371,14 @@ class Ctx(object):
         if i < len(self.prefix):
             d = self.prefix[i]
             self.trace.append(d)
+            self.path_log.append('%s=%d' % (label[:40], d))
             return d
+        if self.split_depth is not None and i >= self.split_depth:
+            raise PathSplit()
         for k in range(n - 1, 0, -1):
             self.forks.append(self.trace + [k])
         self.trace.append(0)
+        self.path_log.append('%s=0' % label[:40])
         return 0
 
     def provable(self, cond):
@@ -331,6 +396,8 @@ class Ctx(object):
             d = self.prefix[i]
             self.trace.append(d)
             return bool(d)
+        if self.split_depth is not None and i >= self.split_depth:
+            raise PathSplit()
         r = self._check(z3.Not(cond))
         d = 1 if r == z3.unsat else 0
         self.trace.append(d)
@@ -399,8 +466,8 @@ class Ctx(object):
         side = []
         cache = {}
         try:
-            asserts = [expand_bounded(a, N, side, cache) for a in self.facts]
-            goal = expand_bounded(negcond, N, side, cache)
+            asserts = [expand_bounded(a, N, side, cache, self.qranges) for a in self.facts]
+            goal = expand_bounded(negcond, N, side, cache, self.qranges)
         except EngineError:
             return None
         s2 = z3.Solver()
@@ -451,6 +518,7 @@ class Ctx(object):
             except Exception as e:  # model extraction is best effort
                 out[nm] = '<%s>' % e
         out['_decisions'] = list(self.trace)
+        out['_path'] = list(self.path_log[-40:])
         return out
 
     def register_input(self, name, kind, payload):
@@ -487,14 +555,22 @@ def cvc5_check(solver, timeout_ms):
             pass
 
 
-def explore(run_path, collector, cfg):
-    """Run run_path(ctx) for every feasible decision prefix."""
-    stack = [[]]
+def explore(run_path, collector, cfg, start=None, split_depth=None):
+    """Run run_path(ctx) for every feasible decision prefix.  With split_depth:
+    stop each path where it needs a new decision at that depth and return those
+    prefixes (the frontier) instead of exploring below them."""
+    stack = [list(p) for p in (start if start is not None else [[]])]
+    frontier = []
     while stack:
         prefix = stack.pop()
         ctx = Ctx(prefix, collector, cfg)
+        ctx.split_depth = split_depth
         try:
             run_path(ctx)
+        except PathSplit:
+            frontier.append(list(ctx.trace))
+            stack.extend(ctx.forks)
+            continue
         except PathAbort:
             pass
         collector.paths += 1
@@ -502,3 +578,4 @@ def explore(run_path, collector, cfg):
         if collector.paths >= cfg.max_paths and stack:
             collector.incomplete.append('path limit %d reached' % cfg.max_paths)
             break
+    return frontier
